@@ -651,8 +651,14 @@ class Emitter:
         names = list(f.blocks.keys())
         allb = set(names); dom = {b: set(allb) for b in names}
         if names: dom[names[0]] = {names[0]}
+        reach = set(); stk_ = [names[0]] if names else []
+        while stk_:
+            b_ = stk_.pop()
+            if b_ in reach: continue
+            reach.add(b_); stk_.extend(succ.get(b_, []))
         preds = collections.defaultdict(list)
         for b, ss in succ.items():
+            if b not in reach: continue          # blocks without predecessors (after noreturn calls) must not spoil dominators
             for x_ in ss: preds[x_].append(b)
         ch = True
         while ch:
@@ -661,7 +667,7 @@ class Emitter:
                 ps = [dom[p_] for p_ in preds[b] if p_ in dom]
                 nd = (set.intersection(*ps) if ps else set()) | {b}
                 if nd != dom[b]: dom[b] = nd; ch = True
-        backedges = set((b, h) for b, ss in succ.items() for h in ss if h in dom.get(b, ()))
+        backedges = set((b, h) for b, ss in succ.items() if b in reach for h in ss if h in dom.get(b, ()))
         heads = set(h for _, h in backedges)
         fid = s.fn_id(f.name)
         # natural loop body of each head = union over its back edges of nodes that reach the tail without passing the head
